@@ -259,12 +259,15 @@ def step (st : Store) (line : String) : Store × String :=
       | .ok none => (st, "nil")
       | .ok (some (ty, d)) => ({ st with iters := st.iters.insert dst (pn, d) }, s!"{ty}")
       | r => (st, resStr r (fun _ => ""))
-  | ["foreach", o, keys] => withView o fun _ pj v =>
+  | ["foreach", o, keys] => withView o fun pn pj v =>
     match keysOf keys with
     | none => (st, "bad-op")
     | some ks =>
-      (st, resStr (View.forEach pj ks v.iter 0 #[] (fuelOf pj))
-        (fun cbs => "ok " ++ ",".intercalate (cbs.toList.map (fun p => s!"{hex p.1}:{p.2.t}:{p.2.off}"))))
+      match View.forEach pj ks v.iter 0 #[] (fuelOf pj) with
+      | .ok cbs =>
+        let its := (List.range cbs.size).foldl (fun m k => m.insert s!"cb{k}" (pn, cbs[k]!.2)) st.iters
+        ({ st with iters := its }, "ok " ++ ",".intercalate (cbs.toList.map (fun p => s!"{hex p.1}:{p.2.t}:{p.2.off}")))
+      | r => (st, resStr r (fun _ => ""))
   | ["delete", o, mask, keys] => withView o fun pn pj v =>
     match keysOf keys, mask.toNat? with
     | some ks, some mk =>
@@ -287,9 +290,21 @@ def step (st : Store) (line : String) : Store × String :=
       match Iter.findElement pj p i (fuelOf pj) with
       | .ok (ty, d) => ({ st with iters := st.iters.insert dst (pn, d) }, s!"{ty}")
       | r => (st, resStr r (fun _ => ""))
-  | ["aforeach", a] => withView a fun _ pj v =>
-    (st, resStr (View.arrForEach pj v.iter #[] (fuelOf pj))
-      (fun cbs => "ok " ++ ",".intercalate (cbs.toList.map (fun i => s!"{i.t}:{i.off}"))))
+  | ["aforeach", a] => withView a fun pn pj v =>
+    match View.arrForEach pj v.iter #[] (fuelOf pj) with
+    | .ok cbs =>
+      let its := (List.range cbs.size).foldl (fun m k => m.insert s!"cb{k}" (pn, cbs[k]!)) st.iters
+      ({ st with iters := its }, "ok " ++ ",".intercalate (cbs.toList.map (fun i => s!"{i.t}:{i.off}")))
+    | r => (st, resStr r (fun _ => ""))
+  | ["pjforeach", pn] =>
+    match st.pjs[pn]? with
+    | none => (st, "bad-ref")
+    | some pj =>
+      match pjForEach pj (Iter.ofPJ pj) #[] (fuelOf pj) with
+      | .ok cbs =>
+        let its := (List.range cbs.size).foldl (fun m k => m.insert s!"cb{k}" (pn, cbs[k]!)) st.iters
+        ({ st with iters := its }, s!"ok {cbs.size}")
+      | r => (st, resStr r (fun _ => ""))
   | ["adelete", a, mask] => withView a fun pn pj v =>
     match mask.toNat? with
     | none => (st, "bad-op")
